@@ -183,22 +183,28 @@ def _d2(chk, fb):
                             elif v["k"] == "DeclRefExpr" and k == 0:
                                 names.append(render(v))
                             for nm in names:
-                                shifted.setdefault(nm, n)
+                                shifted.setdefault(nm, []).append(n)
         # flows name -> restore argument (flow-insensitive copies  L = name)
         copies = {}
         for n in f.calls():
             if n["callee"]["name"] == "operator=" and "obj" in n and strip(f.obj(n))["k"] == "DeclRefExpr" and "basic_string" in strip(f.obj(n))["decl"]["ty"]:
                 copies.setdefault(render(f.obj(n)), set()).add(render(f.args(n)[0]))
         # flags that make a guarded restore unconditional for probe paths: flag = true dominates the probe
-        for nm, site in sorted(shifted.items()):
-            covering = set(cfg.stmt_block(c) for c in restores_all if e1.before_in_function(cfg, site, c))
-            for c, L in restores_one:
-                if L == nm or nm in copies.get(L, ()):
-                    covering.add(cfg.stmt_block(c))
-            ok, path = e1.must_pass(cfg, covering, start=cfg.stmt_block(site)) if covering else (False, None)
-            if not ok and covering:
-                # a restore guarded by a flag that is set on every path to the probe
-                ok = _flag_guarded(f, cfg, covering, site)
+        for nm, sites_ in sorted(shifted.items()):
+            ok = True
+            site = sites_[0]
+            for st_ in sites_:
+                covering = set(cfg.stmt_block(c) for c in restores_all if e1.before_in_function(cfg, st_, c))
+                for c, L in restores_one:
+                    if L == nm or nm in copies.get(L, ()):
+                        covering.add(cfg.stmt_block(c))
+                ok1, path = e1.must_pass(cfg, covering, start=cfg.stmt_block(st_)) if covering else (False, None)
+                if not ok1 and covering:
+                    # a restore guarded by a flag that is set on every path to the probe
+                    ok1 = _flag_guarded(f, cfg, covering, st_)
+                if not ok1:
+                    ok, site = False, st_
+                    break
             if ok:
                 chk.proved("D2", f.key, "restored:" + nm, f.loc(site), "the parameter named by '%s' is restored from '%s' before the update returns" % (nm, arg))
             else:
@@ -223,7 +229,15 @@ def _flag_guarded(f, cfg, covering, site):
                 nm = l["decl"]["name"]
                 val = render(kids(n)[1]) == "true"
                 others = [m for m in walk(f.body) if m["k"] == "BinaryOperator" and m["op"] == "=" and strip(kids(m)[0])["k"] == "DeclRefExpr" and strip(kids(m)[0])["decl"]["id"] == l["decl"]["id"] and render(kids(m)[1]) != render(kids(n)[1])]
-                if not others and cfg.dominates(cfg.stmt_block(n), sb):
+                nb = cfg.stmt_block(n)
+                # an assignment inside a try body does not cover the handlers of that try: the exception may be raised before it
+                in_handler = False
+                for h in f.ancestors(site):
+                    if h["k"] == "CXXCatchStmt":
+                        t_ = f.parent.get(h["id"])
+                        if t_ is not None and f.contains(t_, n) and not f.contains(h, n):
+                            in_handler = True
+                if not others and not in_handler and cfg.dominates(nb, sb) and (nb != sb or e1.earlier_in_block(cfg, n, site)):
                     stable[nm] = val
     # dominating branch facts on atoms never written here
     for a in cfg.dom.get(sb, ()):
@@ -459,4 +473,7 @@ def run(chk, fb, tier):
     _d3(chk, fb)
     _d4(chk, fb)
     _d5_d6(chk, fb)
+    from . import copyrule
+    chk.rule("DC", "copy constructor and copy assignment copy the same members; operator= empties a member container before re-populating it; copy functions never assign through a stored shared pointer")
+    copyrule.check(chk, fb, "DC", lambda c: c["file"].endswith(("Bpp/Numeric/Function/NumericalDerivative.h",)), floor=1)
     chk.assume("exceptional exits are outside D2/D3 (every call may throw); only ConstraintException is part of the protocol")
